@@ -67,6 +67,8 @@ def read_input(args):
     else:
         rec_input = ReconciliationInput.from_dict(data)
 
+    # Name ancestral nodes before any algorithm serializes node names
+    rec_input.label_internal()
     return rec_input
 
 
